@@ -1215,3 +1215,40 @@ m('seed-c06-reg-grad-into-sum', ['C06', 'C12'], 'break', MIME, 'mime.apply',
   expect='R-WMEAN.pair-sum')
 
 _E[:] = [e for e in _E if e is not None]
+
+# ---- second batch of seed-derived entries ----
+TASKS = 'fedjax/training/tasks.py'
+m('seed-c05-break-on-empty-batch', 'C05', 'break', MOD, 'evaluate_model',
+  "stat = _evaluate_model_step(model, params, batch, stat)",
+  "if not batch[next(iter(batch))].any():\n  break\nstat = _evaluate_model_step(model, params, batch, stat)", expect='R-STAT.loop')
+m('seed-c05-skip-batch', 'C05', 'break', MOD, 'evaluate_model',
+  "stat = _evaluate_model_step(model, params, batch, stat)",
+  "if len(batch) > 1:\n  stat = _evaluate_model_step(model, params, batch, stat)", expect='R-STAT.loop')
+m('seed-c20-table-fill-vocab-size', 'C20', 'break', DSH, '_build_look_up_table',
+  "table = np.full([256], oov, dtype=np.int32)", "table = np.full([256], vocab_size, dtype=np.int32)", expect='R-CONST.table')
+m('seed-c20-table-fill-twin', 'C20', 'neutral', DSH, '_build_look_up_table',
+  "table = np.full([256], oov, dtype=np.int32)", "table = np.full([256], vocab_size - 1, dtype=np.int32)")
+m('seed-c20-task-passes-dataset-vocab', 'C20', 'break', TASKS, 'get_task',
+  "model = models.shakespeare.create_lstm_model()", "model = models.shakespeare.create_lstm_model(vocab_size=datasets.shakespeare.VOCAB_SIZE)",
+  expect='R-CONST.task')
+m('seed-c20-task-explicit-default-twin', 'C20', 'neutral', TASKS, 'get_task',
+  "model = models.shakespeare.create_lstm_model()", "model = models.shakespeare.create_lstm_model(vocab_size=86)")
+m('seed-c15-nocopy-any-non-iterator', 'C15', 'break', FD, 'RepeatableIterator.__init__',
+  "any(isinstance(base, container) for container in (list, tuple, dict, str, bytes))", "not isinstance(base, Iterator)", mode='expr',
+  expect='R-REPLAY.nocopy')
+m('seed-c15-nocopy-collections-abc', 'C15', 'break', FD, 'RepeatableIterator.__init__',
+  "any(isinstance(base, container) for container in (list, tuple, dict, str, bytes))", "isinstance(base, (list, tuple, dict, str, bytes, Iterable))",
+  mode='expr', expect='R-REPLAY.nocopy')
+m('seed-c15-nocopy-tuple-twin', 'C15', 'neutral', FD, 'RepeatableIterator.__init__',
+  "any(isinstance(base, container) for container in (list, tuple, dict, str, bytes))", "isinstance(base, (list, tuple, dict, str, bytes, range))",
+  mode='expr')
+m('seed-c13-seed-truthiness', ['C13', 'C08'], 'break', FD, 'SubsetFederatedData.shuffled_clients',
+  "rng = np.random.RandomState(seed)", "rng = np.random.RandomState(seed) if seed else np.random.RandomState()",
+  expect={'C13': 'R-STREAM.seeded', 'C08': 'R-ORDER.shuffled'})
+m('seed-c13-seed-or-default', ['C13', 'C08'], 'break', IMFD, 'InMemoryFederatedData.shuffled_clients',
+  "rng = np.random.RandomState(seed)", "rng = np.random.RandomState(seed or None)", expect={'C13': 'R-STREAM.seeded', 'C08': 'R-ORDER.shuffled'})
+multi('seed-c16-shared-cursor', ['C16', 'C08'], 'break', [
+    dict(file=SQL, func='SQLiteFederatedData.__init__', old="self._connection = connection",
+         new="self._connection = connection\nself._read_cursor = connection.cursor()"),
+    dict(file=SQL, func='SQLiteFederatedData._read_clients', mode='expr', old="self._connection.execute", new="self._read_cursor.execute"),
+], expect={'C16': 'R-PAIR.cursor', 'C08': 'R-ORDER.cursor'})
